@@ -64,6 +64,9 @@ fn my_slot() -> usize {
 #[inline]
 pub fn set_run(run: u64) {
     CUR_RUN.with(|c| c.set(run));
+    if cfg!(miri) {
+        return; // no watchdog under Miri (and no shim for pthread_getcpuclockid)
+    }
     let k = my_slot();
     if SLOT_CLOCK[k].load(Ordering::Relaxed) == u64::MAX {
         let mut cid: libc::clockid_t = 0;
